@@ -70,7 +70,7 @@ class Ctx:
         if race:
             cmd.append("-race")
         if os.environ.get("VERIF_COVER"):     # bin/vcover: statement coverage of /repo reached by the harness (GOCOVERDIR is inherited)
-            cmd += ["-cover", "-coverpkg=github.com/gdamore/tcell/v2,github.com/gdamore/tcell/v2/terminfo,github.com/gdamore/tcell/v2/views"]
+            cmd += ["-cover", "-coverpkg=github.com/gdamore/tcell/v2,github.com/gdamore/tcell/v2/terminfo,github.com/gdamore/tcell/v2/views,verifharness/cmd/vh"]
         cmd.append("./cmd/vh")
         env = dict(os.environ, **GOENV)
         t = time.time()
